@@ -631,5 +631,7 @@ def run(ctx):
     rule_progress(ctx, tu, eff)
     rule_type_ptr(ctx, tu)
     ctx.analysed["engine"] = tu.meta
+    from .. import lints
+    lints.run(ctx, "C10", ctx.py, ["librdengine"])
     ctx.assume("completion after ceil(t_max/dt) steps and absence of hangs in general are value-level and not "
                "decided; the Python driver loop ends only when the engine reports completion")
